@@ -13,7 +13,7 @@ import (
 func init() {
 	register(Rule{
 		Name:  "PIPE2",
-		Props: []string{"C01", "C02", "C03", "C04", "C06", "C09"},
+		Props: []string{"C01", "C02", "C03", "C04", "C05", "C06", "C09"},
 		Doc:   "imported schemas are rebased before being saved; every $ref written by a phase is canonical; the removal loop makes progress; the rewriters' panics are unreachable by typing",
 		Run:   pipe2Rules,
 	})
@@ -48,7 +48,7 @@ func (c *Ctx) absJoinRule(reach []*core.FuncInfo) {
 		if !strings.HasSuffix(fi.Pkg.PkgPath, "/normalize") {
 			continue
 		}
-		info := c.info(fi)
+		_ = c.info(fi)
 		sig := fi.Obj.Type().(*types.Signature)
 		// the reference input: a string parameter named by position (last string) or a spec.Ref parameter
 		var refParams []types.Object
@@ -79,23 +79,7 @@ func (c *Ctx) absJoinRule(reach []*core.FuncInfo) {
 			}
 			n++
 			ord++
-			var absTest, hostTest bool
-			for _, cd := range c.conds(fi, call) {
-				if cd.Kind != core.CondBool {
-					continue
-				}
-				if cc, ok := core.Unparen(cd.Expr).(*ast.CallExpr); ok && cd.Neg {
-					if k := c.P.CalleeAny(fi, cc); k != nil && k.FullName() == "path/filepath.IsAbs" {
-						absTest = true
-					}
-				}
-				// !(u.Host != "")  or  u.Host == ""
-				if x, empty, ok := core.EmptyTest(info, cd); ok && empty {
-					if sel, isSel := core.Unparen(x).(*ast.SelectorExpr); isSel && sel.Sel.Name == "Host" {
-						hostTest = true
-					}
-				}
-			}
+			absTest, hostTest := c.absGuards(fi, call, 0)
 			k := fmt.Sprintf("%s/Join#%d", fi.QName(), ord)
 			var missing []string
 			if !absTest {
@@ -112,6 +96,48 @@ func (c *Ctx) absJoinRule(reach []*core.FuncInfo) {
 	if n < 1 {
 		c.S.Undecided("C04", "PIPE-ABSJOIN", "floor", "-", "no join onto a base directory found in the normalisers (three on the pinned tree)")
 	}
+}
+
+// absGuards: at this node the two negative absoluteness tests are established (a false filepath.IsAbs, an empty URL
+// host) — by the path conditions inside the function or, for an unexported helper, at every one of its call sites.
+func (c *Ctx) absGuards(fi *core.FuncInfo, at ast.Node, depth int) (absTest, hostTest bool) {
+	info := c.info(fi)
+	for _, cd := range c.conds(fi, at) {
+		if cd.Kind != core.CondBool {
+			continue
+		}
+		if cc, ok := core.Unparen(cd.Expr).(*ast.CallExpr); ok && cd.Neg {
+			if k := c.P.CalleeAny(fi, cc); k != nil && k.FullName() == "path/filepath.IsAbs" {
+				absTest = true
+			}
+		}
+		if x, empty, ok := core.EmptyTest(info, cd); ok && empty {
+			if sel, isSel := core.Unparen(x).(*ast.SelectorExpr); isSel && sel.Sel.Name == "Host" {
+				hostTest = true
+			}
+		}
+	}
+	if absTest && hostTest || depth > 1 || fi.Obj.Exported() {
+		return
+	}
+	sites := 0
+	allAbs, allHost := true, true
+	for _, caller := range c.P.SortedFuncs() {
+		for _, call := range calls(caller.Decl.Body) {
+			if c.P.StaticCallee(caller, call) != fi.Obj {
+				continue
+			}
+			sites++
+			a, h := c.absGuards(caller, call, depth+1)
+			allAbs = allAbs && a
+			allHost = allHost && h
+		}
+	}
+	if sites > 0 {
+		absTest = absTest || allAbs
+		hostTest = hostTest || allHost
+	}
+	return
 }
 
 // mentionsCall: the expression (through single-definition locals and field stores of the same base) contains a call
@@ -203,6 +229,32 @@ func (c *Ctx) reinlineRule(reach []*core.FuncInfo) {
 				}
 				return false
 			}
+			// the complexity predicate applied to an analysis, directly or through a local holding its result:
+			// returns the call
+			complexCall := func(e ast.Expr) *ast.CallExpr {
+				e = core.Unparen(e)
+				if o := core.ObjOf(info, e); o != nil {
+					if _, isID := e.(*ast.Ident); isID {
+						if defs := c.P.Locals(fi).Defs[o]; len(defs) == 1 && defs[0].Kind == core.DefAssign {
+							e = core.Unparen(defs[0].Expr)
+						}
+					}
+				}
+				if cc, ok := e.(*ast.CallExpr); ok && c.isComplexCall(fi, cc) {
+					return cc
+				}
+				return nil
+			}
+			mentionsComplex := func(root ast.Node) bool {
+				found := false
+				ast.Inspect(root, func(m ast.Node) bool {
+					if x, ok := m.(ast.Expr); ok && complexCall(x) != nil {
+						found = true
+					}
+					return !found
+				})
+				return found
+			}
 			// atoms of a raise condition
 			type atoms struct{ dirEq, complexOK, other bool }
 			var dirArgs []ast.Expr
@@ -213,6 +265,9 @@ func (c *Ctx) reinlineRule(reach []*core.FuncInfo) {
 				case *ast.Ident:
 					if flag != nil && core.ObjOf(info, x) == flag {
 						return false, true
+					}
+					if cc := complexCall(x); cc != nil {
+						return eval(cc, dirEq, cx, flag)
 					}
 					if tv, ok := info.Types[x]; ok && tv.Value != nil {
 						return tv.Value.String() == "true", true
@@ -246,7 +301,7 @@ func (c *Ctx) reinlineRule(reach []*core.FuncInfo) {
 						}
 					}
 				case *ast.CallExpr:
-					if cal := c.P.StaticCallee(fi, x); cal != nil && cal.Name() == "isAnalyzedAsComplex" {
+					if c.isComplexCall(fi, x) {
 						// the analysed schema must be the one written
 						if sel, ok := core.Unparen(x.Fun).(*ast.SelectorExpr); ok {
 							if o := core.ObjOf(info, sel.X); o != nil {
@@ -270,16 +325,7 @@ func (c *Ctx) reinlineRule(reach []*core.FuncInfo) {
 					if x.Pos() < call.Pos() || len(x.Lhs) != 1 || len(x.Rhs) != 1 || !core.IsBool(info.TypeOf(x.Lhs[0])) || !c.flowsToReturn(fi, x.Lhs[0]) {
 						return true
 					}
-					mentions := false
-					ast.Inspect(x.Rhs[0], func(m ast.Node) bool {
-						if cc, ok := m.(*ast.CallExpr); ok {
-							if cal := c.P.StaticCallee(fi, cc); cal != nil && cal.Name() == "isAnalyzedAsComplex" {
-								mentions = true
-							}
-						}
-						return true
-					})
-					if !mentions {
+					if !mentionsComplex(x.Rhs[0]) {
 						return true
 					}
 					flag := core.ObjOf(info, x.Lhs[0])
@@ -289,16 +335,7 @@ func (c *Ctx) reinlineRule(reach []*core.FuncInfo) {
 					if x.Pos() < call.Pos() || x.Init != nil {
 						return true
 					}
-					mentions := false
-					ast.Inspect(x.Cond, func(m ast.Node) bool {
-						if cc, ok := m.(*ast.CallExpr); ok {
-							if cal := c.P.StaticCallee(fi, cc); cal != nil && cal.Name() == "isAnalyzedAsComplex" {
-								mentions = true
-							}
-						}
-						return true
-					})
-					if !mentions {
+					if !mentionsComplex(x.Cond) {
 						return true
 					}
 					for _, bs := range x.Body.List {
@@ -548,75 +585,64 @@ func (c *Ctx) rebaseRule(reach []*core.FuncInfo) {
 		if as, ok := c.parents(fi)[resolve].(*ast.AssignStmt); ok && len(as.Lhs) >= 1 {
 			schObj = core.ObjOf(info, as.Lhs[0])
 		}
-		ok := false
-		why := "no loop rewrites the $refs of the imported schema through normalize.RebaseRef before it is saved"
-		ast.Inspect(fi.Decl.Body, func(n ast.Node) bool {
-			rs, isRange := n.(*ast.RangeStmt)
-			if !isRange || rs.Pos() > save.Pos() || rs.Pos() < resolve.Pos() {
-				return true
+		// the importing $ref: the String() of a spec.Ref rooted at a parameter
+		isImportingRef := func(e ast.Expr) bool {
+			e = core.Unparen(e)
+			if o := core.ObjOf(info, e); o != nil {
+				if defs := c.P.Locals(fi).Defs[o]; len(defs) == 1 && defs[0].Kind == core.DefAssign {
+					e = core.Unparen(defs[0].Expr)
+				}
 			}
-			// ranges over the all-references index of an analyzer
-			sel, isSel := core.Unparen(rs.X).(*ast.SelectorExpr)
-			if !isSel {
-				return true
+			bc, ok := e.(*ast.CallExpr)
+			if !ok {
+				return false
 			}
-			allField, _ := getterField(c, "AllReferences")
-			if allField == nil || core.FieldOf(info, sel) != allField {
-				return true
+			bs, ok := core.Unparen(bc.Fun).(*ast.SelectorExpr)
+			if !ok || bs.Sel.Name != "String" || !core.IsSpecType(info.TypeOf(bs.X), "Ref") {
+				return false
 			}
-			// that analyzer analysed the resolved schema
-			analysed := false
+			id := rootIdent(bs.X)
+			if id == nil {
+				return false
+			}
+			o := core.ObjOf(info, id)
+			return o != nil && c.P.Locals(fi).Params[o]
+		}
+		ok, why := c.rebaseLoop(fi, fi.Decl.Body, schObj, isImportingRef, resolve.Pos(), save.Pos())
+		if !ok {
+			// the loop may live in a helper called between the resolution and the save with the schema and the
+			// importing $ref
 			for _, call := range calls(fi.Decl.Body) {
-				if call.Pos() > rs.Pos() {
+				if call.Pos() < resolve.Pos() || call.Pos() > save.Pos() {
 					continue
 				}
-				for _, a := range call.Args {
-					if core.ObjOf(info, a) == schObj && schObj != nil {
-						if s2, ok := core.Unparen(call.Fun).(*ast.SelectorExpr); ok && strings.HasPrefix(exprStr(sel.X), exprStr(s2.X)) {
-							analysed = true
-						}
+				callee := c.P.StaticCallee(fi, call)
+				g := c.P.Funcs[callee]
+				if callee == nil || g == nil || g.Decl == nil || g.Decl.Body == nil {
+					continue
+				}
+				si, bi := -1, -1
+				for i, a := range call.Args {
+					if schObj != nil && core.ObjOf(info, a) == schObj {
+						si = i
+					}
+					if isImportingRef(a) {
+						bi = i
 					}
 				}
-			}
-			// body: UpdateRef(sch, key, MustCreateRef(RebaseRef(<importing ref>.String(), <loop ref>.String())))
-			rebased := false
-			for _, call := range calls(rs.Body) {
-				callee := c.P.CalleeAny(fi, call)
-				if callee == nil || callee.Name() != "UpdateRef" || len(call.Args) < 3 {
+				if si < 0 || bi < 0 {
 					continue
 				}
-				if core.ObjOf(info, call.Args[0]) != schObj || core.ObjOf(info, call.Args[1]) != core.ObjOf(info, rs.Key) {
-					continue
-				}
-				for _, inner := range calls(call.Args[2]) {
-					if ic := c.P.CalleeAny(fi, inner); ic != nil && ic.Name() == "RebaseRef" && len(inner.Args) == 2 {
-						// base: the String() of a spec.Ref rooted at a parameter (the importing $ref); target: the loop's $ref
-						baseOK := false
-						if bc, ok := core.Unparen(inner.Args[0]).(*ast.CallExpr); ok {
-							if bs, ok := core.Unparen(bc.Fun).(*ast.SelectorExpr); ok && bs.Sel.Name == "String" && core.IsSpecType(info.TypeOf(bs.X), "Ref") {
-								if id := rootIdent(bs.X); id != nil {
-									if o := core.ObjOf(info, id); o != nil && c.P.Locals(fi).Params[o] {
-										baseOK = true
-									}
-								}
-							}
-						}
-						if baseOK && strings.Contains(exprStr(inner.Args[1]), exprStr(rs.Value)) {
-							rebased = true
-						}
-					}
+				gs, gb := paramObj(g, si), paramObj(g, bi)
+				ginfo := c.info(g)
+				ok2, why2 := c.rebaseLoop(g, g.Decl.Body, gs, func(e ast.Expr) bool { return gb != nil && core.ObjOf(ginfo, e) == types.Object(gb) }, g.Decl.Body.Pos(), g.Decl.Body.End())
+				if ok2 {
+					ok = true
+				} else {
+					why = why2 + " (in " + g.Name() + ")"
 				}
 			}
-			switch {
-			case !analysed:
-				why = "the loop over " + exprStr(rs.X) + " does not range over an analysis of the imported schema"
-			case !rebased:
-				why = "the loop over the imported schema's $refs does not rewrite each of them with normalize.RebaseRef(<importing $ref>, <inner $ref>)"
-			default:
-				ok = true
-			}
-			return true
-		})
+		}
 		c.S.Decide(ok, "C01", "PIPE-REBASE", fi.QName(), c.P.Pos(save.Pos()),
 			"every $ref inside an imported schema is rebased relative to the importing $ref before the schema becomes a definition",
 			why+": relative $refs inside the imported schema would be resolved against the wrong document")
@@ -624,6 +650,81 @@ func (c *Ctx) rebaseRule(reach []*core.FuncInfo) {
 	if !found {
 		c.S.Undecided("C01", "PIPE-REBASE", "anchor", "-", "no function both resolves a remote $ref and saves the result")
 	}
+}
+
+// rebaseLoop: between the two positions, a loop over the all-references index of an analysis of the schema rewrites
+// every $ref with UpdateRef(schema, key, MustCreateRef(RebaseRef(<importing ref>, <loop ref>.String()))).
+func (c *Ctx) rebaseLoop(fi *core.FuncInfo, body ast.Node, schObj types.Object, isBase func(ast.Expr) bool, from, to token.Pos) (bool, string) {
+	info := c.info(fi)
+	ok := false
+	why := "no loop rewrites the $refs of the imported schema through normalize.RebaseRef before it is saved"
+	resolveLocal := func(e ast.Expr) ast.Expr {
+		e = core.Unparen(e)
+		if o := core.ObjOf(info, e); o != nil {
+			if _, isID := e.(*ast.Ident); isID {
+				if defs := c.P.Locals(fi).Defs[o]; len(defs) == 1 && defs[0].Kind == core.DefAssign {
+					return core.Unparen(defs[0].Expr)
+				}
+			}
+		}
+		return e
+	}
+	ast.Inspect(body, func(n ast.Node) bool {
+		rs, isRange := n.(*ast.RangeStmt)
+		if !isRange || rs.Pos() > to || rs.Pos() < from {
+			return true
+		}
+		// ranges over the all-references index of an analyzer
+		sel, isSel := core.Unparen(rs.X).(*ast.SelectorExpr)
+		if !isSel {
+			return true
+		}
+		allField, _ := getterField(c, "AllReferences")
+		if allField == nil || core.FieldOf(info, sel) != allField {
+			return true
+		}
+		// that analyzer analysed the resolved schema
+		analysed := false
+		for _, call := range calls(body) {
+			if call.Pos() > rs.Pos() {
+				continue
+			}
+			for _, a := range call.Args {
+				if core.ObjOf(info, a) == schObj && schObj != nil {
+					if s2, ok := core.Unparen(call.Fun).(*ast.SelectorExpr); ok && strings.HasPrefix(exprStr(sel.X), exprStr(s2.X)) {
+						analysed = true
+					}
+				}
+			}
+		}
+		rebased := false
+		for _, call := range calls(rs.Body) {
+			callee := c.P.CalleeAny(fi, call)
+			if callee == nil || callee.Name() != "UpdateRef" || len(call.Args) < 3 {
+				continue
+			}
+			if core.ObjOf(info, call.Args[0]) != schObj || core.ObjOf(info, call.Args[1]) != core.ObjOf(info, rs.Key) {
+				continue
+			}
+			for _, inner := range calls(resolveLocal(call.Args[2])) {
+				if ic := c.P.CalleeAny(fi, inner); ic != nil && ic.Name() == "RebaseRef" && len(inner.Args) == 2 {
+					if isBase(inner.Args[0]) && strings.Contains(exprStr(inner.Args[1]), exprStr(rs.Value)) {
+						rebased = true
+					}
+				}
+			}
+		}
+		switch {
+		case !analysed:
+			why = "the loop over " + exprStr(rs.X) + " does not range over an analysis of the imported schema"
+		case !rebased:
+			why = "the loop over the imported schema's $refs does not rewrite each of them with normalize.RebaseRef(<importing $ref>, <inner $ref>)"
+		default:
+			ok = true
+		}
+		return true
+	})
+	return ok, why
 }
 
 // canonicalRefs (C02): every $ref written into the document by a flattening phase is '#/definitions/<name>'
@@ -659,8 +760,11 @@ func (c *Ctx) canonicalRefs(reach []*core.FuncInfo) {
 					// the exemption holds only while the write raises the re-run flag when the ref is not a definition
 					raised := c.raisesRerunFlag(fi, call, ref)
 					if raised {
-						c.S.Exempt("C02", "REF-CANONICAL", key, c.P.Pos(call.Pos()), why)
+						for _, pr := range []string{"C02", "C05"} {
+							c.S.Exempt(pr, "REF-CANONICAL", key, c.P.Pos(call.Pos()), why)
+						}
 					} else {
+						c.S.Violate("C05", "REF-CANONICAL", key, c.P.Pos(call.Pos()), "a possibly non-canonical $ref is written without telling the caller (see the C02 obligation)")
 						c.S.Violate("C02", "REF-CANONICAL", key, c.P.Pos(call.Pos()),
 							"a possibly non-canonical $ref ("+exprStr(ref)+") is written and the function does not tell its caller (no `flag = flag || path.Dir(ref) != \"#/definitions\"` next to the write): pointer naming is not run again and the anonymous pointer survives")
 					}
@@ -668,6 +772,9 @@ func (c *Ctx) canonicalRefs(reach []*core.FuncInfo) {
 				}
 			}
 			c.S.Decide(ok, "C02", "REF-CANONICAL", key, c.P.Pos(call.Pos()),
+				"the written $ref is "+how,
+				"the $ref written here ("+exprStr(ref)+") is neither built as '#/definitions/'+name nor guarded by the top-level-definition test: a non-canonical $ref can survive flattening")
+			c.S.Decide(ok, "C05", "REF-CANONICAL", key, c.P.Pos(call.Pos()),
 				"the written $ref is "+how,
 				"the $ref written here ("+exprStr(ref)+") is neither built as '#/definitions/'+name nor guarded by the top-level-definition test: a non-canonical $ref can survive flattening")
 		}
@@ -914,14 +1021,7 @@ func (c *Ctx) isCanonicalRef(fi *core.FuncInfo, ref ast.Expr, site *ast.CallExpr
 			if !sameExpr(as.Lhs[0], sel) {
 				return true
 			}
-			be, isB := core.Unparen(as.Rhs[0]).(*ast.BinaryExpr)
-			if !isB {
-				okAssign = false
-				return true
-			}
-			s, isConst := core.ConstString(info, be.Y)
-			dir, isCall := core.Unparen(be.X).(*ast.CallExpr)
-			okAssign = isConst && s == "#/definitions" && isCall && strings.HasPrefix(exprStr(dir.Fun), "path.Dir")
+			okAssign = c.isTopLevelTest(fi, as.Rhs[0], 0)
 			return true
 		})
 		if okAssign {
@@ -1015,7 +1115,11 @@ func (c *Ctx) progressRule(reach []*core.FuncInfo) {
 				// a loop over x, after this point, deleting from the definitions at the top level of its body
 				ast.Inspect(fi.Decl.Body, func(m ast.Node) bool {
 					rs, isRange := m.(*ast.RangeStmt)
-					if !isRange || rs.Pos() < nd.Pos() || !sameExpr(rs.X, x) {
+					if !isRange || !sameExpr(rs.X, x) {
+						return true
+					}
+					// the test may also come after the loop when nothing changes the collection in between
+					if rs.Pos() < nd.Pos() && c.collectionMutated(fi, x) {
 						return true
 					}
 					for _, st := range rs.Body.List {
@@ -1264,6 +1368,14 @@ func (c *Ctx) selfInline(reach []*core.FuncInfo) {
 				guarded := false
 				cinfo := c.info(caller)
 				for _, cd := range c.conds(caller, call) {
+					// a positive predicate all of whose possibly-true results include the negated self test
+					if cd.Kind == core.CondBool && !cd.Neg {
+						if tc, ok := core.Unparen(cd.Expr).(*ast.CallExpr); ok {
+							if g := c.P.StaticCallee(caller, tc); g != nil && c.impliesNoSelf(c.P.Funcs[g], isSelfTest) {
+								guarded = true
+							}
+						}
+					}
 					if cd.Kind != core.CondBool || !cd.Neg {
 						continue
 					}
@@ -1313,4 +1425,113 @@ func (c *Ctx) selfInline(reach []*core.FuncInfo) {
 	if n < 1 {
 		c.S.Note("TERM-SELFINLINE: no phase both merges a definition into a referer and deletes it")
 	}
+}
+
+// impliesNoSelf: g() == true implies that the self-reference test is false: every return of g is the constant false
+// or a conjunction containing the negated call of a self-reference test.
+func (c *Ctx) impliesNoSelf(g *core.FuncInfo, isSelfTest func(*core.FuncInfo) bool) bool {
+	if g == nil || g.Decl == nil || g.Decl.Body == nil {
+		return false
+	}
+	ginfo := c.info(g)
+	ok, n := true, 0
+	ast.Inspect(g.Decl.Body, func(nd ast.Node) bool {
+		if _, isLit := nd.(*ast.FuncLit); isLit {
+			return false
+		}
+		ret, isRet := nd.(*ast.ReturnStmt)
+		if !isRet {
+			return true
+		}
+		n++
+		if len(ret.Results) != 1 {
+			ok = false
+			return true
+		}
+		if tv, isC := ginfo.Types[ret.Results[0]]; isC && tv.Value != nil && tv.Value.String() == "false" {
+			return true
+		}
+		has := false
+		for _, cd := range core.SplitCond(ret.Results[0], false) {
+			if cd.Kind == core.CondBool && cd.Neg {
+				if tc, isCall := core.Unparen(cd.Expr).(*ast.CallExpr); isCall {
+					if h := c.P.StaticCallee(g, tc); h != nil && isSelfTest(c.P.Funcs[h]) {
+						has = true
+					}
+				}
+			}
+		}
+		if !has {
+			ok = false
+		}
+		return true
+	})
+	return ok && n > 0
+}
+
+// isTopLevelTest: the expression is path.Dir(<ref string>) == "#/definitions", directly or as the single result of a
+// module helper applied to the reference.
+func (c *Ctx) isTopLevelTest(fi *core.FuncInfo, e ast.Expr, depth int) bool {
+	if depth > 2 {
+		return false
+	}
+	info := c.info(fi)
+	switch x := core.Unparen(e).(type) {
+	case *ast.BinaryExpr:
+		if x.Op != token.EQL {
+			return false
+		}
+		for _, pr := range [][2]ast.Expr{{x.X, x.Y}, {x.Y, x.X}} {
+			s, isConst := core.ConstString(info, pr[1])
+			dir, isCall := core.Unparen(pr[0]).(*ast.CallExpr)
+			if !isConst || s != "#/definitions" || !isCall {
+				continue
+			}
+			if cal := c.P.CalleeAny(fi, dir); cal != nil && cal.FullName() == "path.Dir" {
+				return true
+			}
+		}
+	case *ast.CallExpr:
+		callee := c.P.StaticCallee(fi, x)
+		g := c.P.Funcs[callee]
+		if callee == nil || g == nil || g.Decl == nil || g.Decl.Body == nil || len(g.Decl.Body.List) != 1 {
+			return false
+		}
+		if ret, ok := g.Decl.Body.List[0].(*ast.ReturnStmt); ok && len(ret.Results) == 1 {
+			return c.isTopLevelTest(g, ret.Results[0], depth+1)
+		}
+	}
+	return false
+}
+
+// collectionMutated: the function stores into, deletes from, appends to or reassigns the collection (after its
+// definition).
+func (c *Ctx) collectionMutated(fi *core.FuncInfo, x ast.Expr) bool {
+	info := c.info(fi)
+	o := core.ObjOf(info, x)
+	if o == nil {
+		return true
+	}
+	mutated := false
+	defs := 0
+	ast.Inspect(fi.Decl.Body, func(n ast.Node) bool {
+		switch y := n.(type) {
+		case *ast.AssignStmt:
+			for _, l := range y.Lhs {
+				l = core.Unparen(l)
+				if ix, ok := l.(*ast.IndexExpr); ok && core.ObjOf(info, ix.X) == o {
+					mutated = true
+				}
+				if id, ok := l.(*ast.Ident); ok && core.ObjOf(info, id) == o {
+					defs++
+				}
+			}
+		case *ast.CallExpr:
+			if isBuiltin(info, y, "delete") && len(y.Args) == 2 && core.ObjOf(info, y.Args[0]) == o {
+				mutated = true
+			}
+		}
+		return true
+	})
+	return mutated || defs > 1
 }
